@@ -628,6 +628,13 @@ class Gen:
             self.features.add('fold')
             return [r.choice(['fold-left', 'fold-right']), self.gen_S(env, d - 1), self.gen_I(env, d - 2),
                     self.gen_F(ftype(['I', 'I'], 'I'), env, d - 1)]
+        if k == 10 and r.random() < 0.3:
+            # arrays and maps are functions of arity one, also for fn:apply
+            self.features.add('apply-on-array-or-map')
+            if r.random() < 0.5:
+                n_ = r.choice([1, 2, 3])
+                return ['apply', ['arr'] + [self.gen_I(env, 0) for _ in range(n_)], ['arr', ['int', r.randint(1, n_)]]]
+            return ['apply', ['map1', 'k', self.gen_I(env, 0)], ['arr', ['str', 'k']]]
         if k == 10:
             self.features.add('apply')
             ft = self.rand_ftype('I')
@@ -647,9 +654,17 @@ class Gen:
             self.features.add('recursion')
             n = r.randint(0, 4)
             fname = self.name(env)
-            body = ['if', ['eq', ['var', 'n'], ['int', 0]], self.gen_I({}, 0),
-                    ['add', ['var', 'n'], ['call', ['var', 's'], [['var', 's'], ['sub', ['var', 'n'], ['int', 1]]]]]]
-            return ['let', fname, ['fn', ['s', 'n'], body], ['call', ['var', fname], [['var', fname], ['int', n]]]]
+            rec = ['call', ['var', 's'], [['var', 's'], ['sub', ['var', 'n'], ['int', 1]]]]
+            step = r.choice([['add', ['var', 'n'], rec], ['add', rec, ['var', 'n']], ['mul', rec, ['add', ['var', 'n'], ['int', 1]]],
+                             ['add', ['mul', rec, ['int', 2]], ['var', 'n']]])
+            body = ['if', ['eq', ['var', 'n'], ['int', 0]], self.gen_I({}, 0), step]
+            prog = ['let', fname, ['fn', ['s', 'n'], body], ['call', ['var', fname], [['var', fname], ['int', n]]]]
+            if r.random() < 0.5:
+                # the function is created with another variable in scope (a non empty closure)
+                cname = 'cc'
+                body[3] = ['add', body[3], ['var', cname]] if r.random() < 0.5 else body[3]
+                prog = ['let', cname, ['int', r.randint(0, 3)], prog]
+            return prog
         return ['int', r.randint(-3, 9)]
 
     def gen_let(self, ty, env, d):
